@@ -1021,13 +1021,14 @@ class WCS(object):
             a, ca, aorder = self.ExtractDistortCoeffs(
                 dname, self.wcs, dinfo["aprefix"]
             )
+            b, cb, border = self.ExtractDistortCoeffs(
+                dname, self.wcs, dinfo["bprefix"]
+            )
 
-            if ca != 0:
+            # the distortion can be in either axis alone
+            if ca != 0 or cb != 0:
                 self.distort["name"] = dname
 
-                b, cb, border = self.ExtractDistortCoeffs(
-                    dname, self.wcs, dinfo["bprefix"]
-                )
                 ap, cap, aporder = self.ExtractDistortCoeffs(
                     dname, self.wcs, dinfo["apprefix"]
                 )
